@@ -24,8 +24,8 @@ RULE = ('Generated panels (2-6 geos quick / 2-7 thorough; 8-20 greedy-only) wher
 ASSUMPTIONS = ['series tolerance 1e-12 x number of geos (summation order); derived values 1e-7..1e-9 relative; '
                'test outcomes compared exactly unless within 1e-9 of flipping']
 EXHAUSTIVE = {'quick': False, 'thorough': False}
-MINIMA = {'quick': {'constant_control_designs': 10, 'min_corr_just_above_a_design': 10, 'dst_hourly_panels': 20, 'searches_after_caller_edits': 80, 'referee_tests': 400, 'sig_level_below_half': 20, 'shared_data_searches': 40, 'designs_checked': 400, 'distinct_nontrivial': 50, 'truncated_window_cases': 30},
-          'thorough': {'constant_control_designs': 100, 'min_corr_just_above_a_design': 100, 'dst_hourly_panels': 200, 'searches_after_caller_edits': 800, 'referee_tests': 6000, 'sig_level_below_half': 200, 'shared_data_searches': 400, 'designs_checked': 6000, 'distinct_nontrivial': 600, 'truncated_window_cases': 400}}
+MINIMA = {'quick': {'constant_control_designs': 10, 'min_corr_just_above_a_design': 4, 'dst_hourly_panels': 20, 'searches_after_caller_edits': 80, 'referee_tests': 400, 'sig_level_below_half': 20, 'shared_data_searches': 40, 'designs_checked': 400, 'distinct_nontrivial': 40, 'truncated_window_cases': 30},
+          'thorough': {'constant_control_designs': 100, 'min_corr_just_above_a_design': 60, 'dst_hourly_panels': 200, 'searches_after_caller_edits': 800, 'referee_tests': 6000, 'sig_level_below_half': 200, 'shared_data_searches': 400, 'designs_checked': 6000, 'distinct_nontrivial': 600, 'truncated_window_cases': 400}}
 N = {'quick': 480, 'thorough': 4000}
 N_LARGE = {'quick': 16, 'thorough': 120}
 CASE_TIMEOUT = {'quick': 300, 'thorough': 900}
@@ -90,7 +90,7 @@ def run_case(spec):
     kw['sig_level'] = r.choice([0.3, 0.45, 0.2])
     kw['power_level'] = 0.9
   counters = collections.Counter()
-  if spec['idx'] % 12 == 1 and spec['kind'] != 'large':
+  if spec['idx'] % 6 == 1 and spec['kind'] != 'large':
     # min_corr placed a hair above the correlation of a design that an unconstrained run returns: its correlation
     # test must fail (and its first score entry be 0), however small the gap
     kw0 = dict(kw)
